@@ -120,6 +120,12 @@ def lean_part(rep, prop):
     bad = [(n, r) for n, r in res.items() if not r["ok"]]
     rep.cov["discharged"] = len(names) - len(bad)
     rep.cov["theorems"] = [{"name": n, "axioms": res[n]["axioms"]} for n in names]
+    if rep.tier == "thorough":
+        ok2, out2 = leanaudit.leanchecker()
+        rep.cov["leanchecker"] = "ok (%d modules re-checked)" % len(leanaudit.proof_modules()) if ok2 else "FAILED"
+        if not ok2:
+            p = write_replay(prop, 908, ["leanchecker rejects the compiled proofs"], out2 + "\n", ext="txt")
+            rep.violation(p, "leanchecker rejects the compiled library", no_input=True)
     if hyg:
         p = write_replay(prop, 901, ["forbidden constructs in the Lean sources"], "\n".join("%s: %s" % h for h in hyg) + "\n", ext="txt")
         rep.violation(p, "sorry/admit/axiom/native_decide found in the Lean sources", no_input=True)
